@@ -48,6 +48,12 @@ class err_iter(object):
             node = None
         else:
             node = self.cur_node.get_first_child()
+            if node is None and self.cur_node.id in ('ISA', 'GS', 'ST') \
+                    and self.cur_node.get_parent() is not None and self.cur_node.is_closed():
+                # A loop that was closed without any child node is still
+                # visited at its trailer: that is when its trailer errors are listed
+                self.visit_stack.append(self.cur_node)
+                return
         if node is not None:
             self.visit_stack.append(self.cur_node)
             self.cur_node = node
